@@ -1167,7 +1167,7 @@ class XsdElement(XsdComponent, ParticleMixin,
 
         if isinstance(other, XsdAnyElement):
             if self.min_occurs == self.max_occurs == 0:
-                return True
+                return not check_occurs or other.min_occurs == 0
             if check_occurs and not self.has_occurs_restriction(other):
                 return False
             return other.is_matching(self.name, self.default_namespace)
